@@ -70,12 +70,12 @@ PAIRS: List[Tuple[str, str, str, List[Step]]] = [
     ("tcp_server", "TCPServer._read_data", "read loop", [
         ("bounded read", P("asyncio.wait_for", ["self.reader.read(MAX_RECV)", "self.config.read_timeout"], awaited=True), P("trio.fail_after", ["self.config.read_timeout or inf"]), ""),
         ("read", P("self.reader.read", ["MAX_RECV"]), P("self.stream.receive_some", ["MAX_RECV"], awaited=True, under_with="trio.fail_after(self.config.read_timeout or inf)"), ""),
-        ("data -> protocol", P("self.protocol.handle", ["RawData($)"], awaited=True, not_in_handler=True), P("self.protocol.handle", ["RawData($)"], awaited=True, not_in_handler=True, unguarded=True), ""),
+        ("data -> protocol", P("self.protocol.handle", ["RawData($)"], awaited=True, not_in_handler=True, apart_from="asyncio.wait_for"), P("self.protocol.handle", ["RawData($)"], awaited=True, not_in_handler=True, unguarded=True, outside_with="trio.fail_after"), ""),
         ("end -> Closed", P("self.protocol.handle", ["Closed()"], awaited=True, after_loop=True), P("self.protocol.handle", ["Closed()"], awaited=True, after_loop=True), ""),
     ]),
     ("tcp_server", "TCPServer._close", "transport close", [
         ("half-close", P("self.writer.write_eof", [], in_try_with={"NotImplementedError", "OSError", "RuntimeError"}), P("self.stream.send_eof", [], awaited=True, in_try_with={"BrokenResourceError", "AttributeError", "BusyResourceError", "ClosedResourceError"}), ""),
-        ("close", P("self.writer.close", []), P("self.stream.aclose", [], awaited=True), ""),
+        ("close", P("self.writer.close", [], apart_from="self.writer.write_eof"), P("self.stream.aclose", [], awaited=True, apart_from="self.stream.send_eof"), ""),
         ("wait closed", P("self.writer.wait_closed", [], awaited=True), None, "trio aclose() is the wait"),
         ("stop idle timer", P("self.idle_task.stop", [], awaited=True, in_finally=True), None, "D2: trio's idle task lives in the connection nursery and ends with it"),
     ]),
@@ -201,6 +201,17 @@ def _ctx_ok(c: ast.Call, fn: ast.AST, pat: Dict[str, Any]) -> Tuple[bool, str]:
             return False, f"handler catches {sorted(got)}, needs {sorted(ih)}"
     if pat.get("not_in_handler") and any(isinstance(a, ast.ExceptHandler) for a in ancestors(c)):
         return False, "inside an exception handler"
+    ow = pat.get("outside_with")
+    if ow is not None:
+        for a in ancestors(c):
+            if isinstance(a, (ast.With, ast.AsyncWith)) and any(norm(i.context_expr).startswith(ow) for i in a.items):
+                return False, f"inside `with {ow}...` (its timeout / scope now covers this step)"
+    af = pat.get("apart_from")
+    if af is not None:
+        for a in ancestors(c):
+            if isinstance(a, ast.Try) and any(c is x for st in a.body for x in ast.walk(st)):
+                if any(isinstance(x, ast.Call) and callee_shape(x.func) == af for st in a.body for x in ast.walk(st)):
+                    return False, f"in the same try block as {af} (skipped when that call raises)"
     itw = pat.get("in_try_with")
     if itw is not None:
         ok = False
